@@ -140,6 +140,30 @@ func genC11(e *emitter, r *rng, thorough bool) {
 		items = append(items, items[0])
 		e.emit("ecdh.seq", "ecdh.seq "+strings.Join(items, ";"))
 	}
+	// pairs (d1, B), (d2, C) with bytes(d1)||bytes(x(B)) = bytes(d2)||bytes(x(C)) (d2 = d1*256 + first byte of x(B),
+	// x(C) = the rest of x(B)): a cache keyed by a concatenation without separators confuses them
+	for tries, found := 0, 0; tries < 400 && found < 3; tries++ {
+		B := mulG(modN(new(big.Int).SetBytes(r.bytes(32))))
+		xb := pad32(B.x.Bytes())
+		if xb[0] == 0 {
+			continue
+		}
+		xc := new(big.Int).SetBytes(xb[1:])
+		ck, err := bec.ParsePubKey(append([]byte{2}, pad32(xc.Bytes())...), bec.S256())
+		if err != nil {
+			continue
+		}
+		found++
+		d1 := new(big.Int).SetBytes(r.bytes(31))
+		d1.SetBit(d1, 247, 1)
+		d2 := new(big.Int).Add(new(big.Int).Lsh(d1, 8), big.NewInt(int64(xb[0])))
+		d2 = modN(d2)
+		if new(big.Int).Add(new(big.Int).Lsh(d1, 8), big.NewInt(int64(xb[0]))).Cmp(curveN) >= 0 {
+			found--
+			continue
+		}
+		e.emit("ecdh.seq.concat", "ecdh.seq "+nhx(d1)+":"+nhx(B.x)+":"+nhx(B.y)+";"+nhx(d2)+":"+nhx(ck.X)+":"+nhx(ck.Y)+";"+nhx(d1)+":"+nhx(B.x)+":"+nhx(B.y))
+	}
 	// ECDH agreement both ways
 	for i := 0; i+1 < len(keys); i++ {
 		a, b := keys[i], keys[i+1]
@@ -275,6 +299,25 @@ func genC19(e *emitter, r *rng, thorough bool) {
 	n := 60
 	if thorough {
 		n = 1000
+	}
+	// several encryptions to one recipient in a row (the ephemeral key must be fresh EVERY time)
+	for i := 0; i < 4; i++ {
+		pub := mulG(big.NewInt(int64(1000 + i)))
+		var msgs [][]byte
+		var mh []string
+		for j := 0; j < 3+r.intn(3); j++ {
+			m := r.bytes(1 + r.intn(40))
+			msgs = append(msgs, m)
+			mh = append(mh, hx(m))
+		}
+		tape := runWithGenTape(r, -1, func() {
+			for _, m := range msgs {
+				if _, err := bec.Encrypt(pubOf(pub.x, pub.y), m); err != nil {
+					return
+				}
+			}
+		})
+		e.emit("ecies.seq", fmt.Sprintf("ecies.seq %s %s %s %s", nhx(pub.x), nhx(pub.y), strings.Join(mh, ","), tape))
 	}
 	// several generating calls in a row, all results held until the end (freshness ACROSS calls)
 	for i := 0; i < n/3; i++ {
